@@ -373,6 +373,12 @@ class DisjunctionMaxMatcher(UnionMatcher):
         elif not self.b.is_active():
             return self.a.score()
         else:
+            id_a = self.a.id()
+            id_b = self.b.id()
+            if id_a < id_b:
+                return self.a.score()
+            elif id_b < id_a:
+                return self.b.score()
             return max(self.a.score(), self.b.score())
 
     def max_quality(self):
